@@ -11,10 +11,12 @@ import (
 	"flag"
 	"fmt"
 	"os"
+	"strings"
 	"testing"
 	"testing/synctest"
 	"time"
 
+	"github.com/influxdata/influxdb/tsdb/engine/tsm1"
 	"github.com/influxdata/influxql"
 
 	ek "verif/harness/enginekit"
@@ -172,6 +174,14 @@ func runUnguarded(t *testing.T, alphabet []op, seq []int, index string) (res exp
 			}
 			v, s, soft := env.CheckListingsTolerant(m, tagKeys, index == "tsi1")
 			if v != "" {
+				if strings.HasPrefix(s, "listing:lingering-") && emptiedKeyInFiles(env, m) {
+					// known finding: a series emptied by several partial deletes keeps its key in a TSM index
+					// (every block tombstoned) and is therefore kept in the shard's index; keep exploring
+					res.SoftViolation, res.SoftSig, res.SoftDetail = v, s+":emptied-by-partial-deletes:"+index, "model:\n"+m.Dump()+"layout: "+env.Engine.VLayout()
+					res.Obs = o.kind
+					res.State = m.Dump() + "|" + env.Engine.VLayout()
+					return
+				}
 				res.Violation, res.Sig, res.Detail = v, s+":"+index, "model:\n"+m.Dump()+"layout: "+env.Engine.VLayout()
 				return
 			}
@@ -186,6 +196,28 @@ func runUnguarded(t *testing.T, alphabet []op, seq []int, index string) (res exp
 		}
 	})
 	return res
+}
+
+// emptiedKeyInFiles reports whether some TSM file still carries an index entry
+// for a series that has no points left (all of its blocks are tombstoned by
+// deletes none of which removed the key as a whole).
+func emptiedKeyInFiles(env *ek.Env, m *ek.Model) bool {
+	for _, f := range env.Engine.FileStore.Files() {
+		for i := 0; i < f.KeyCount(); i++ {
+			k, _ := f.KeyAt(i)
+			sk, _ := tsm1.SeriesAndFieldFromCompositeKey(k)
+			live := false
+			for _, byTime := range m.Data[string(sk)] {
+				if len(byTime) > 0 {
+					live = true
+				}
+			}
+			if !live {
+				return true
+			}
+		}
+	}
+	return false
 }
 
 func TestCheck(t *testing.T) {
